@@ -35,7 +35,7 @@ def run(item):
         lines = cp.stdout.strip().splitlines()
         return name, dict(prop=prop, kind=kind, applied=True, exit=cp.returncode,
                           violations=[l for l in lines if l.startswith('VIOLATION') or l.strip().startswith('failed obligation')][:8],
-                          undecided=[l for l in lines if l.startswith('UNDECIDED') or l.startswith('OUTSIDE')][:6],
+                          undecided=[l for l in lines if l.startswith('UNDECIDED') or l.startswith('OUTSIDE') or l.startswith('STAND-IN')][:6],
                           summary=lines[-1] if lines else '')
     finally:
         subprocess.call(['git', '-C', '/repo', 'worktree', 'remove', '--force', wt])
